@@ -209,6 +209,62 @@ func c10(c *Ctx) {
 			os.Unsetenv("GOARCH")
 		}
 	}()
+	// small scope exhaustively (thorough tier): one directory holding a file for every constraint of the family
+	// {none, l, l && l', l || l'} over the literals ±mage ±host-os ±plan9 ±host-arch ±foo, under every name suffix of
+	// {none, _hostos, _plan9, _hostarch, _plan9_hostarch}: 1055 files, selected for three platforms in both directory modes
+	if c.Tier == "thorough" {
+		os.Unsetenv("GOOS")
+		os.Unsetenv("GOARCH")
+		atoms := []string{"mage", runtime.GOOS, "plan9", runtime.GOARCH, "foo"}
+		var lits []*bexpr
+		for _, a := range atoms {
+			lits = append(lits, &bexpr{K: "tag", T: a}, &bexpr{K: "not", A: &bexpr{K: "tag", T: a}})
+		}
+		exprs := []*bexpr{nil}
+		exprs = append(exprs, lits...)
+		for _, a := range lits {
+			for _, b := range lits {
+				exprs = append(exprs, &bexpr{K: "and", A: a, B: b}, &bexpr{K: "or", A: a, B: b})
+			}
+		}
+		sufs := []string{"", "_" + runtime.GOOS, "_plan9", "_" + runtime.GOARCH, "_plan9_" + runtime.GOARCH}
+		var files []c10File
+		fm := map[string]string{}
+		for ei, e := range exprs {
+			for si, suf := range sufs {
+				f := c10File{name: fmt.Sprintf("e%03d%s.go", ei, suf), expr: e, pkg: "main"}
+				hdr := ""
+				if e != nil {
+					hdr = "//go:build " + e.String() + "\n\n"
+				}
+				f.src = hdr + fmt.Sprintf("package main\n\nfunc T_e%03d_%d() {}\n", ei, si)
+				files = append(files, f)
+				fm[f.name] = f.src
+			}
+		}
+		sort.Slice(files, func(i, j int) bool { return files[i].name < files[j].name })
+		dir := filepath.Join(c.Tmp, "c10all")
+		writeFiles(dir, fm)
+		for _, pl := range [][2]string{{"", ""}, {"plan9", ""}, {"", "386"}} {
+			for _, isDir := range []bool{false, true} {
+				var stderr bytes.Buffer
+				got, err := mage.Magefiles(dir, pl[0], pl[1], "go", &stderr, isDir, false)
+				impl := J{}
+				if err != nil {
+					impl["error"] = err.Error()
+				} else {
+					names := []string{}
+					for _, g := range got {
+						names = append(names, filepath.Base(g))
+					}
+					impl["files"] = names
+				}
+				in := J{"op": "c10.select", "mode": "magefiles", "files": filesJSON(files), "goos": pl[0], "goarch": pl[1], "host": host, "isMagefilesDir": isDir}
+				c.Emit(in, impl, "c10-exhaustive", fmt.Sprintf("n=%d", len(files)), fmt.Sprintf("selected=%d", len(got)), "flagos="+pl[0])
+			}
+		}
+		os.RemoveAll(dir)
+	}
 	for i := 0; i < c.N; i++ {
 		dir := filepath.Join(c.Tmp, fmt.Sprintf("c10d%d", i))
 		files := genDirFiles(r, 1+r.Intn(8), false)
